@@ -69,11 +69,36 @@ def showObs : Obs String Int → String
   | .vals l => "l:" ++ ",".intercalate (l.map toString)
   | .panic => "panic"
 
+/-- driver-level commands on top of the op language: the driver keeps the current map and the
+    previous one (the receiver of the last `map`/`filter`, which return NEW maps in Go), so that
+    sharing between a map and the map derived from it becomes observable:
+    `prev` observes the previous map, `swap` exchanges the two. In the model maps are values,
+    so the previous map is simply unchanged. -/
+inductive Cmd where
+  | op (o : Op String Int)
+  | prev
+  | swap
+
+def parseCmd (s : String) : Option Cmd :=
+  if s == "prev" then some .prev
+  else if s == "swap" then some .swap
+  else (parseOp s).map .op
+
+def runCmds (cur prev : OM) : List Cmd → List String
+  | [] => []
+  | .prev :: rest => ("p:" ++ showPairs prev.iterate ++ "/" ++ toString prev.len) :: runCmds cur prev rest
+  | .swap :: rest => "u" :: runCmds prev cur rest
+  | .op o :: rest =>
+    let (cur', obs) := cur.step o
+    let prev' := match o with
+      | .mapVals _ => cur
+      | .filter _ => cur
+      | _ => prev
+    showObs obs :: runCmds cur' prev' rest
+
 def omapLine (rest : String) : String :=
-  match (rest.splitOn ";").mapM parseOp with
+  match (rest.splitOn ";").mapM parseCmd with
   | none => "bad-op"
-  | some ops =>
-    let (_, obs) := (OMap.empty : OM).run ops
-    ";".intercalate (obs.map showObs)
+  | some cmds => ";".intercalate (runCmds OMap.empty OMap.empty cmds)
 
 end Cog.Drv
